@@ -47,6 +47,20 @@ def gen_x(rng, db, xeq=None):
 
 def generate(rng, tier, index):
     nq, nh = _sizes(tier)
+    if index < nq and index % 6 == 5:
+        # Fe-Cr-Ni (two solution phases, both with mobility data): diffusivity queries addressed to either phase;
+        # the per-phase warm-start sets must not leak from one phase's queries into the other's
+        T = rng.choice([1173.0, 1273.0, 1373.15])
+        ops = []
+        for _ in range(rng.randint(4, 12)):
+            x = [round(rng.uniform(0.1, 0.32), 5), round(rng.uniform(0.03, 0.15), 5)]
+            T = min(max(T + rng.choice([0, 0, 20, -50, 100]), 1100.0), 1450.0)
+            r = rng.random()
+            if r < 0.08:
+                ops.append({'q': 'clearCache'})
+            else:
+                ops.append({'q': 'interdiff' if r < 0.65 else 'tracer', 'x': x, 'T': T, 'rc': rng.random() < 0.35, 'phase': rng.choice([None, 'FCC_A1', 'BCC_A2', 'BCC_A2'])})
+        return {'kind': 'queries', 'db': 'fecrni', 'method': 'tangent', 'walk': False, 'ops': ops}
     if index < nq:
         db = 'alzr' if rng.random() < 0.5 else 'nicral'
         method = rng.choice(['tangent', 'tangent', 'sampling', 'approximate', 'curvature'])
@@ -118,7 +132,10 @@ def prepare(tier, recs):
             continue
         pair = []
         for _ in range(2):
-            if db == 'alzr':
+            if db == 'fecrni':
+                from kawin.thermo import GeneralThermodynamics
+                t = GeneralThermodynamics(ds.FECRNI_DB, ['FE', 'CR', 'NI'], ['FCC_A1', 'BCC_A2'])
+            elif db == 'alzr':
                 t = BinaryThermodynamics(ds.ALZR_TDB, ['AL', 'ZR'], ['FCC_A1', 'AL3ZR'], drivingForceMethod='tangent')
                 t.setDiffusivity(W._alzr_diff, 'FCC_A1')
             else:
@@ -148,7 +165,7 @@ def flat(v):
     return np.ravel(a.astype(float))
 
 
-def agree(a, b, energy_like, rtol=1e-7):
+def agree(a, b, energy_like, rtol=1e-7, diffusivity=False):
     if a is None or b is None:
         return a is None and b is None
     if a.shape != b.shape:
@@ -157,6 +174,10 @@ def agree(a, b, energy_like, rtol=1e-7):
     atol = 1e-4 if energy_like else 1e-10
     if energy_like:
         rtol = max(rtol, 1e-6)
+    if diffusivity:
+        # m2/s values of 1e-12..1e-20: purely relative, scaled by the largest entry of the matrix (off-diagonal entries may cancel to ~0)
+        scale = max(float(np.max(np.abs(a))), float(np.max(np.abs(b))))
+        return bool(np.all(np.abs(a - b) <= 1e-6 * scale))
     return bool(np.all(np.abs(a - b) <= atol + rtol * np.maximum(np.abs(a), np.abs(b))))
 
 
@@ -176,10 +197,10 @@ def do_query(th, op, db, fresh=False):
         res = th.getDrivingForce(xin, T if T.ndim else float(T), removeCache=rc)
     elif q == 'interdiff':
         x = arr('x', op['x'])
-        res = th.getInterdiffusivity(x if x.ndim else float(x), op['T'], removeCache=rc)
+        res = th.getInterdiffusivity(x if x.ndim else float(x), op['T'], removeCache=rc, **({'phase': op['phase']} if op.get('phase') else {}))
     elif q == 'tracer':
         x = arr('x', op['x'])
-        res = th.getTracerDiffusivity(x if x.ndim else float(x), op['T'], removeCache=rc)
+        res = th.getTracerDiffusivity(x if x.ndim else float(x), op['T'], removeCache=rc, **({'phase': op['phase']} if op.get('phase') else {}))
     elif q == 'ic':
         g = arr('gExtra', op['g'])
         if op.get('arrayT'):
@@ -278,7 +299,7 @@ def run_queries(rec, F, cnt, sig):
             comp_b = np.atleast_2d(np.asarray(res_w[1], dtype=float))[0] if db == 'nicral' else np.atleast_1d(np.asarray(res_w[1], dtype=float))[0]
             fw = np.concatenate(([dg_b], np.ravel(comp_b)))
         ctx = dict(query=q, method=rec['method'] if q in ('df', 'growth', 'imp') else 'n/a', ordered=bool(ordered), warm_start=bool(had_cache), large_jump=bool(big_jump), batch=bool(op.get('batch', False)))
-        if not agree(fw, ff, energy_like):
+        if not agree(fw, ff, energy_like, diffusivity=q in ('interdiff', 'tracer')):
             dmax = None if fw is None or ff is None or fw.shape != ff.shape else float(np.max(np.abs(fw - ff)))
             ctx['small_offset'] = bool(dmax is not None and q == 'df' and dmax <= 2.0 * float(getattr(warm, 'gOffset', 1.0)) + 1e-6)
             F.add('C09.warm_vs_fresh', f'query {k} ({q}, method {rec["method"]}, x={op.get("x")}, T={op.get("T")}): warm object returned {None if fw is None else fw.tolist()[:6]}, a fresh twin {None if ff is None else ff.tolist()[:6]} (max |diff| {dmax})', **ctx)
@@ -287,7 +308,7 @@ def run_queries(rec, F, cnt, sig):
             res_w2, _ = do_query(warm, opq, db)
             f2 = flat(res_w2) if not isinstance(res_w2, str) else None
             f1 = flat(res_w)
-            if not isinstance(res_w2, str) and not agree(f1, f2, energy_like):
+            if not isinstance(res_w2, str) and not agree(f1, f2, energy_like, diffusivity=q in ('interdiff', 'tracer')):
                 rctx = {kk: vv for kk, vv in ctx.items() if kk != 'small_offset'}
                 rctx['warm_start'] = bool(had_cache or not op.get('rc', False))      # at least one of the two calls started from cached sets
                 F.add('C09.repeat', f'query {k} ({q}, method {rec["method"]}): repeating the call immediately gives {None if f2 is None else f2.tolist()[:6]} instead of {None if f1 is None else f1.tolist()[:6]}', **rctx)
